@@ -140,7 +140,9 @@ class ChainWorld:
                 w.log.append(("trace", name, state, ex.ctx.ghost.get("iter_tag")))
                 return {k: f"{k}({name})@{len(w.log)}" for k in keys}
             return Native(tf, name)
-        self.trace_funcs = [mk_trace("tf1", ["pos", "hamiltonian"]), mk_trace("tf2", ["extra"])] if with_traces else None
+        # "pos" is returned by both functions: documented rule -- the value of the LAST trace function returning a key is the one stored
+        self.trace_funcs = [mk_trace("tf1", ["pos", "hamiltonian"]), mk_trace("tf2", ["extra", "pos"])] if with_traces else None
+        self.trace_owner = {"pos": "tf2", "hamiltonian": "tf1", "extra": "tf2"}
         self.chain_traces = {k: RowArray("trace:" + k, memmap=memmap) for k in ("pos", "hamiltonian", "extra")} if with_traces else None
         self.chain_stats = {"integration_transition": {k: RowArray("stat:" + k, memmap=memmap) for k in ("n_step", "accept_stat")}} if with_stats else None
         self.monitor = {"integration_transition": ["accept_stat"]} if monitor else None
@@ -231,9 +233,15 @@ def sample_chain_contract(run, it, prop):
             for k, arr in w.chain_traces.items():
                 new = arr.writes[arr.writes_before:]
                 if interrupted_at is None:
-                    okn = len(new) == 1
+                    okn = len(new) >= 1
                     ctx.run.ob(P + "/one-trace-write-per-iteration", core.DISCHARGED if okn else core.FAILED, "pyvc",
-                               detail="" if okn else f"{arr.name}: {len(new)} writes")
+                               detail="" if okn else f"{arr.name}: {len(new)} writes", text="every traced key's row is written in every completed iteration")
+                    if okn:
+                        last = new[-1][1]
+                        okl = isinstance(last, str) and last.startswith(f"{k}({w.trace_owner[k]})")
+                        ctx.run.ob(P + "/trace-row-holds-last-trace-function-value", core.DISCHARGED if okl else core.FAILED, "pyvc",
+                                   detail="" if okl else f"{arr.name}[row] finally holds {last}; documented: the last trace function returning the key ({w.trace_owner[k]}) wins",
+                                   text="if a key is returned by several trace functions the stored value is the last function's (documented)")
                 for wr in new:
                     ctx.prove(P + "/trace-row-index", lift(wr[0]) == row, text="traces are written at row sample_index + sampling_index_offset")
                     okv = isinstance(wr[1], str) and wr[1].startswith(k + "(")
